@@ -171,7 +171,13 @@ func c01Ops(prefix []int, mode string) explore.Outcome {
 			return mcp.NewTextResult("echo:" + n), nil
 		})
 		r.RegisterPrompt(&mcp.Prompt{Name: "the-prompt"}, func(ctx context.Context, req *mcp.GetPromptRequest) (*mcp.GetPromptResult, error) {
-			return &mcp.GetPromptResult{Description: "prompt:" + req.Params.Arguments["nonce"], Messages: []mcp.PromptMessage{}}, nil
+			if len(req.Params.Arguments) == 1 {
+				return &mcp.GetPromptResult{Description: "prompt:" + req.Params.Arguments["nonce"], Messages: []mcp.PromptMessage{}}, nil
+			}
+			return &mcp.GetPromptResult{Description: "prompt-args:" + hx.CanonOf(req.Params.Arguments), Messages: []mcp.PromptMessage{}}, nil
+		})
+		r.RegisterTool(mcp.NewTool("args"), func(ctx context.Context, req *mcp.CallToolRequest) (*mcp.CallToolResult, error) {
+			return mcp.NewTextResult("args:" + hx.CanonOf(req.Params.Arguments)), nil
 		})
 		r.RegisterResource(&mcp.Resource{Name: "the-resource", URI: "res://r"}, func(ctx context.Context, req *mcp.ReadResourceRequest) (mcp.ResourceContents, error) {
 			return mcp.TextResourceContents{URI: "res://r", Text: "resource:r"}, nil
@@ -204,7 +210,7 @@ func c01Ops(prefix []int, mode string) explore.Outcome {
 				if lr, e := cl.ListResources(ctx, &mcp.ListResourcesRequest{}); e != nil || len(lr.Resources) != 1 || lr.Resources[0].Name != "the-resource" {
 					got.Add("ListResources#%d: %v %v", round, lr, e)
 				}
-				if lt, e := cl.ListTools(ctx, &mcp.ListToolsRequest{}); e != nil || len(lt.Tools) != 1 || lt.Tools[0].Name != "slow" {
+				if lt, e := cl.ListTools(ctx, &mcp.ListToolsRequest{}); e != nil || len(lt.Tools) != 2 {
 					got.Add("ListTools#%d: %v %v", round, lt, e)
 				}
 				if lp, e := cl.ListPrompts(ctx, &mcp.ListPromptsRequest{}); e != nil || len(lp.Prompts) != 1 || lp.Prompts[0].Name != "the-prompt" {
@@ -221,6 +227,24 @@ func c01Ops(prefix []int, mode string) explore.Outcome {
 			rr.Params.URI = "res://r"
 			if o, e := cl.ReadResource(ctx, rr); e != nil || len(o.Contents) != 1 {
 				got.Add("ReadResource: %v %v", o, e)
+			}
+			// successive calls with different argument sets: each answer is computed from its own arguments only
+			for _, args := range []map[string]string{{"a": "1", "b": "2", "c": "3"}, {"a": "4", "z": "9"}, {"only": "x", "q": "y"}, {"a": "5", "b": "6"}} {
+				gp := &mcp.GetPromptRequest{}
+				gp.Params.Name = "the-prompt"
+				gp.Params.Arguments = args
+				if o, e := cl.GetPrompt(ctx, gp); e != nil || o.Description != "prompt-args:"+hx.CanonOf(args) {
+					got.Add("GetPrompt with arguments %v answered %v %v", args, o, e)
+				}
+				ct := &mcp.CallToolRequest{}
+				ct.Params.Name = "args"
+				ct.Params.Arguments = map[string]interface{}{}
+				for k, v := range args {
+					ct.Params.Arguments[k] = v
+				}
+				if o, e := cl.CallTool(ctx, ct); e != nil || TextOf(o) != "args:"+hx.CanonOf(args) {
+					got.Add("CallTool with arguments %v answered %q %v", args, TextOf(o), e)
+				}
 			}
 			othersDone.Set()
 		})
